@@ -341,6 +341,70 @@ func checkListener(c *Ctx, ce *chanEngine) {
 				}
 			}
 		}
+		// the re-test may be a predicate helper: `if l.interrupted() { ln.Close() }` where the helper is a non-blocking
+		// select that returns true on quit and on drain and false otherwise
+		if !okRetest {
+			eachInstr(w.Fn, func(_ *ssa.BasicBlock, _ int, in ssa.Instruction) {
+				call, ok := in.(*ssa.Call)
+				if !ok || !instrDominates(w.In, in) || okRetest {
+					return
+				}
+				g := calleeFn(call.Common())
+				if g == nil || !isModFn(g) || g.Blocks == nil {
+					return
+				}
+				good := false
+				eachInstr(g, func(_ *ssa.BasicBlock, _ int, x ssa.Instruction) {
+					s2, ok := x.(*ssa.Select)
+					if !ok || s2.Blocking {
+						return
+					}
+					hasQ, hasD, allTrue := false, false, true
+					for k, st := range s2.States {
+						f, _ := chanFieldOf(st.Chan)
+						if f != quit && f != drain {
+							continue
+						}
+						if f == quit {
+							hasQ = true
+						} else {
+							hasD = true
+						}
+						cb := selectCaseBlock(s2, k)
+						retTrue := false
+						if cb != nil {
+							if r, ok := cb.Instrs[len(cb.Instrs)-1].(*ssa.Return); ok && len(r.Results) == 1 {
+								if cv, ok := r.Results[0].(*ssa.Const); ok && cv.Value != nil && cv.Value.String() == "true" {
+									retTrue = true
+								}
+							}
+						}
+						if !retTrue {
+							allTrue = false
+						}
+					}
+					if hasQ && hasD && allTrue {
+						good = true
+					}
+				})
+				if !good {
+					return
+				}
+				// the true edge of the call closes the socket
+				for _, r := range *call.Referrers() {
+					iff, ok := r.(*ssa.If)
+					if !ok {
+						continue
+					}
+					tb := iff.Block().Succs[0]
+					for _, x := range tb.Instrs {
+						if cc := callOf(x); cc != nil && cc.IsInvoke() && cc.Method.Name() == "Close" {
+							okRetest = true
+						}
+					}
+				}
+			})
+		}
 		c.Check(okRetest, "R3", "re-test of quit/drain after publishing the socket", w.In.Pos(), "non-blocking select on quit and drain after the assignment closes the socket", "after listener.ln is assigned nothing re-tests quit/drain: a Stop or Drain that ran while binding saw nil, closed nothing, and the accept loop then runs for ever (Stop hangs, port stays open)")
 	}
 
@@ -609,6 +673,7 @@ func checkLimitPredicate(c *Ctx, lim *ssa.Function, conns *types.Var) {
 		rg.mk(z)
 		site := fmt.Sprintf("admission region %d: %s", i+1, rg.name)
 		b := lim.Blocks[0]
+		var prev *ssa.BasicBlock
 		verdict := ""
 		var at token.Pos
 		for steps := 0; steps < 32 && verdict == ""; steps++ {
@@ -616,7 +681,7 @@ func checkLimitPredicate(c *Ctx, lim *ssa.Function, conns *types.Var) {
 			at = last.Pos()
 			switch t := last.(type) {
 			case *ssa.Jump:
-				b = b.Succs[0]
+				prev, b = b, b.Succs[0]
 			case *ssa.If:
 				cmp, ok := t.Cond.(*ssa.BinOp)
 				if !ok {
@@ -635,17 +700,41 @@ func checkLimitPredicate(c *Ctx, lim *ssa.Function, conns *types.Var) {
 					break
 				}
 				if d == 1 {
-					b = b.Succs[0]
+					prev, b = b, b.Succs[0]
 				} else {
-					b = b.Succs[1]
+					prev, b = b, b.Succs[1]
 				}
 			case *ssa.Return:
-				cv, ok := t.Results[0].(*ssa.Const)
-				if !ok {
+				res := t.Results[0]
+				// `return a && b` / `a || b`: a phi whose incoming value for the path taken is a constant or a comparison
+				if ph, isPhi := res.(*ssa.Phi); isPhi && prev != nil {
+					for k, pb := range ph.Block().Preds {
+						if pb == prev {
+							res = ph.Edges[k]
+						}
+					}
+				}
+				got := false
+				if cmp, isCmp := res.(*ssa.BinOp); isCmp {
+					x, ok1 := lin(cmp.X)
+					y, ok2 := lin(cmp.Y)
+					if !ok1 || !ok2 {
+						verdict = "result is not a comparison of len(conns)/limit/constants"
+						break
+					}
+					d := z.decide(cmp.Op.String(), x, y)
+					if d < 0 {
+						verdict = "result `" + cmp.String() + "` undecided in this region"
+						break
+					}
+					got = d == 1
+				} else if cv, ok := res.(*ssa.Const); ok {
+					got = cv.Value.String() == "true"
+				} else {
 					verdict = "result is not a constant"
 					break
 				}
-				got := cv.Value.String() == "true"
+				_ = got
 				if got == rg.want {
 					verdict = "OK"
 				} else {
